@@ -38,6 +38,10 @@ CLAIMED = {
          "normalisation (omega), kernel-checked enumeration (204 decide+kernel chunks) of the normalised kernel at all 205 887 arguments with the division-free criterion |T cos x - sin x| |cos x| <= 2.5 ulp against "
          "Taylor enclosures of Real.sin/Real.cos at the true angle (second quadrant through pi - x with a 40-bit enclosure of pi), edge case |x| = phi analytic. "
          "C10_odd, C10_period (x,k >= 0), C10_nan_iff for every |v| < 2^62. Tie: exhaustive correspondence of tan on [-pi-2, pi+2] raw + random/pole arguments up to 2^62.", "reflective kernel enumeration + Mathlib enclosures + omega; exhaustive correspondence"),
+ "C20": ("proof", "C20_a2r: for every integral type and every value of it, angle_to_radians is within 2 ulp of d*pi/180 on [0,360] and NaN outside (analytic, all d). "
+         "C20_sin_angle / C20_cos_angle: C09 bound widened by 3 ulp against Real.sin/cos(d deg) for |d| <= 360 and every integral type (analytic from C09's kernel-checked polynomial facts + truncation bound of d*phi/180). "
+         "C20_tan_angle: 5 ulp*(1+tan^2) at the 717 angles with cos != 0 (kernel evaluation). C20_types: int8..uint64, float (721 kernel points over the IEEE model) and fixed_t arguments give the same result. "
+         "Tie: type-matrix correspondence over d in [-360,360] x 10 argument types x 3 functions + a2r over all 8 types.", "analytic + kernel evaluation over 721 angles + Mathlib enclosures; type-matrix correspondence"),
 }
 NA_DEFAULT = "check under construction in this round (the framework is built property by property); not a claim that the technique cannot apply"
 
